@@ -148,6 +148,11 @@ def main(argv=None):
     rep = core.Report("C01", a.tier, a.seed)
     core.props_or_violation(rep)
     drv = core.Driver()
+    if a.replay:
+        import json as _json
+        family.replay_text_case(rep, drv, _json.load(open(a.replay)), check_model)
+        drv.close()
+        return rep.finish(level="proof", rule="replay of " + a.replay, trusted_base=["see the full check"])
     rng = random.Random(a.seed)
     gen = lang.Gen(rng)
     n = a.n or (60 if a.tier == "quick" else 1500)
